@@ -1,6 +1,6 @@
 // Hyrax verifier (hyrax/mod.rs) and helpers  (C10, C02, C03, C11, C17)
 //@use core ops_gen labeled_comm sponge std ser
-//@spec ring
+//@spec ring vec_spec
 //@typemap /<G>/ => 
 //@typemap /Self::VerifierKey/ => HyraxUniversalParams
 //@typemap /Self::Proof/ => Vec<HyraxProof>
@@ -19,7 +19,6 @@
 impl SerBytes for HyraxUniversalParams { uninterp spec fn ser_bytes(&self) -> Seq<u8>; }
 
 // ---- utils::inner_product
-pub open spec fn pointwise_mul(a: Seq<FS>, b: Seq<FS>) -> Seq<FS> { Seq::new(min(a.len(), b.len()), |i: int| f_mul(a[i], b[i])) }
 //@fn id=utils.inner_product file=poly-commit/src/utils.rs scope=top name=inner_product props=C10,C08
 pub fn inner_product(v1: &[Fr], v2: &[Fr]) -> (r: Fr)
     ensures
